@@ -1,13 +1,20 @@
 (* C03 - a cleanly closed store reopens with identical contents.  Statements only.
    PROVED: the field codecs of the file image are inverse - what close/sync writes (little-endian integers of the
-   headers and node blocks, variable-length numbers of the data-block index) is what open reads.
+   headers and node blocks, variable-length numbers of the data-block index) is what open reads; and the codecs of whole
+   blocks: a node block written by the model of _sblk_sync_mm (KV/Codec.v, field offsets regenerated from the source
+   macros) is read back by the reader as exactly that node (C03_node_block_roundtrip), a data-block header + index written
+   by the model of _kvblk_sync_mm is read back as exactly that index (C03_data_block_index_roundtrip).  The reader is the
+   one of KV/Audit.v; on every real image it is compared FIELD BY FIELD with what the implementation's own block reader
+   reports (levels, counts, flags, prefixes, data-block sizes, stored keys of every node), and every data-block index of
+   a real image must be in the canonical form the writer model produces (re-encoding what was decoded gives the bytes
+   that are there).
    NOT proved (open goal, kept visible): `reopen_identity : abs (open (close s)) = abs s` for the whole store model,
    `trim_preserves`, `rdonly_no_effect`.  Those are decided per history on the implementation: dump before close =
    dump after reopen for {WAL on/off} x {read-only, read-write} x {trim, no-trim}, metadata, database ids/flags, the
    read-only sessions refuse every mutating call, truncate yields an empty store (python oracle in checks/kvcommon.py),
    and the reopened image is read by the extracted auditor (C06). *)
 Require Import List ZArith Lia. Import ListNotations.
-Require Import IW.Lib.Vnum IW.KV.Audit IW.KV.Inst IW.KV.Image_proofs.
+Require Import IW.Lib.Vnum IW.KV.Audit IW.KV.Inst IW.KV.Image_proofs IW.KV.Codec IW.KV.Codec_proofs IW.Gen.Facts.
 Local Open Scope Z_scope.
 
 Theorem C03_le_roundtrip_partial : forall n v, 0 <= v < 256 ^ Z.of_nat n -> le_decode (le_encode n v) = v.
@@ -24,6 +31,33 @@ Theorem C03_index_entry_roundtrip_partial :
     rdv rd o = Some (v, Z.of_nat (length (set_vnum64 v))).
 Proof. exact rdv_reads_set_vnum64. Qed.
 Print Assumptions C03_index_entry_roundtrip_partial.
+
+(* a whole node block: for every node record a writer can produce (fields in their byte / 32-bit ranges, 32 slot
+   indexes, 24 links, prefix of the announced length <= 115) and every image that holds the written bytes at the node's
+   address, the reader returns that node *)
+Theorem C03_node_block_roundtrip :
+  forall (rd : Z -> Z) (s : sblk),
+    sblk_wf s -> holds rd (addr_of (s_blk s)) (write_sblk s) -> read_sblk rd (s_blk s) = s.
+Proof. exact sblk_roundtrip. Qed.
+Print Assumptions C03_node_block_roundtrip.
+
+(* a data-block header with its index of 32 (offset, length) pairs *)
+Theorem C03_data_block_index_roundtrip :
+  forall (rd : Z -> Z) (blk szpow : Z) (p : list (Z * Z)),
+    byte szpow -> length p = NIDXA -> Forall pair_wf p -> Z.of_nat (length (write_pidx p)) < 2 ^ 16 ->
+    holds rd (addr_of blk) (write_kvblk_head szpow p) ->
+    read_kvblk rd blk = Some {| k_szpow := szpow; k_idxsz := Z.of_nat (length (write_pidx p)); k_pidx := p;
+                                k_idxend := KVBLK_HDRSZ + Z.of_nat (length (write_pidx p)) |}.
+Proof. exact kvblk_head_roundtrip. Qed.
+Print Assumptions C03_data_block_index_roundtrip.
+
+(* Non-vacuity: a node with two records on level 1, written into an otherwise empty image at block 40, is read back *)
+Definition ex_node : sblk :=
+  {| s_blk := 40; s_flags := 1; s_lvl := 1; s_lkl := 3; s_pnum := 2; s_p0 := 17; s_kblk := 99;
+     s_pi := [1; 0] ++ repeat 0 30; s_n := [56; 72] ++ repeat 0 22; s_bpos := 3; s_lk := [107; 48; 49] |}.
+Definition ex_image (o : Z) : Z := nth (Z.to_nat (o - addr_of 40)) (write_sblk ex_node) 0.
+Example C03_node_block_example : read_sblk ex_image 40 = ex_node.
+Proof. vm_compute. reflexivity. Qed.
 
 Example C03_roundtrip_example : le_decode (le_encode 4 305419896) = 305419896.
 Proof. reflexivity. Qed.
